@@ -179,9 +179,10 @@ func c09Long(c *sim.Ctx) {
 		before := uint64(len(m.Chain))
 		switch {
 		case op <= 5:
-			if uint64(len(m.Chain))%W == W-1 && t.Draw("fail.window.end", 2) == 1 {
+			if uint64(len(m.Chain))%W == W-1 && t.Draw("fail.window.end", 4) != 0 {
 				// the commit of the block that completes a window fails once; nothing may stay behind
-				n.FDB.Plan.FailCommitAt = n.FDB.Commits + 1
+				// (the first or the second commit the store issues: a correct store issues exactly one)
+				n.FDB.Plan.FailCommitAt = n.FDB.Commits + 1 + (t.Draw("fail.which.commit", 3)+1)/2
 				o := d.opts
 				o.Empty = true
 				saved := d.opts
@@ -191,7 +192,10 @@ func c09Long(c *sim.Ctx) {
 				err := n.StoreBlock(fb)
 				n.FDB.Plan.FailCommitAt = 0
 				if err == nil {
-					c.Broken("injected commit error did not fire")
+					// the armed commit index was not reached: the block is simply stored
+					m.Chain = append(m.Chain, fb)
+					c.Logf("store block %d", len(m.Chain)-1)
+					break
 				}
 				c.Logf("store of block %d (last of its window) failed with the injected commit error", fb.B.Number)
 				c.Fault("commit_error_at_window_end")
